@@ -171,7 +171,7 @@ func gen(a Args, out *Out) {
 				case 11, 12:
 					h.HandleDel()
 				case 13:
-					h.Pass(int64(r.Range(0, 4)))
+					h.Pass(int64(r.Range(-2, 4))) // also: the clock reading goes backwards
 				case 14:
 					h.Adv(int64(r.Range(0, 5)))
 				default:
